@@ -75,6 +75,7 @@ extern "C" __attribute__((used, visibility("default"))) const char* __ubsan_defa
   return "print_stacktrace=1:halt_on_error=1";
 }
 
+extern "C" void __sanitizer_set_death_callback(void (*)(void));
 static std::string g_target, g_dir, g_in, g_out, g_statsFile;
 static long g_execs = 0, g_loaded = 0, g_deep = 0, g_roundtrips = 0;
 
@@ -405,6 +406,7 @@ extern "C" int LLVMFuzzerInitialize(int*, char***)
   for (auto& k : kTargets)
     if (g_target == k.name) g_fn = k.fn;
   if (!g_fn) { fprintf(stderr, "unknown FZ_TARGET %s\n", t); _exit(2); }
+  __sanitizer_set_death_callback(flushStats);
   atexit([]() {
     flushStats();
     std::string cmd = "rm -rf " + g_dir;
